@@ -3,7 +3,7 @@ import itertools
 import os
 import pickle
 
-from rtc.gen import Seg, Graph, make_rgfa, gaf_record, write_lines
+from rtc.gen import Seg, Graph, make_rgfa, gaf_record, write_lines, rename_ids
 
 
 def tag_graph(rng, g, untagged_frac=0.25, max_bo=3):
@@ -42,6 +42,8 @@ def sort_key(o, idx):
 def make_case(rng, n_records, n_chrom=1, untagged_frac=0.25, all_reference=False, max_len=3):
     g = make_rgfa(rng, n_ref=rng.randint(3, 5), max_len=max_len, n_bubbles=rng.randint(0, 2), inversion=rng.random() < 0.5,
                   n_chrom=n_chrom, link_tags=False)
+    if rng.random() < 0.25:
+        g = rename_ids(g, rng.choice(["dash", "dot", "hash"]))  # segment names with punctuation (added after seeded change C10-6)
     tag_graph(rng, g, untagged_frac)
     walks = g.walks(3)
     # a walk must not touch rank-0 nodes of two chromosomes (the tool asserts on that): components are separate anyway
@@ -136,6 +138,8 @@ def make_case2(rng, n_records, n_chrom=1, untagged_frac=0.25, ref_mode="any", ta
     for _try in range(200):
         g = make_rgfa(rng, n_ref=rng.randint(3, 5), max_len=max_len, n_bubbles=rng.randint(0, 2) if ref_mode != "some_unknown" else rng.randint(1, 3),
                       inversion=rng.random() < 0.5, n_chrom=n_chrom, link_tags=False)
+        if rng.random() < 0.25:
+            g = rename_ids(g, rng.choice(["dash", "dot", "hash"]))  # segment names with punctuation (added after seeded change C10-6)
         walks = g.walks(max_steps)
         noref = [w for w in walks if not any(g.by_id[n].sr == 0 for n, _ in w)]
         if ref_mode != "some_unknown" or noref:
